@@ -33,6 +33,8 @@ sw_all!(q, t, V_LIST_BIN_1, 5, 7);
 sw_all!(t, t, V_SET_I8_2, 5, 7);
 sw_all!(q, t, V_MAP_I8_BIN, 5, 7);
 sw_all!(t, t, V_MAP_EMPTY, 5, 7);
+sw_all!(q, t, V_SET_EMPTY_BIN, 5, 7);
+sw_all!(t, t, V_SET_EMPTY_STRUCT, 5, 7);
 sw_all!(t, t, V_MAP_I16_I64, 9, 12);
 sw_all!(q, q, V_STRUCT_FLAT, 5, 7);
 sw_all!(q, t, V_STRUCT_NEST, 5, 7);
